@@ -219,7 +219,9 @@ func GenInsidePath(t *rapid.T, p PathPool, label string) string {
 			base = GenName(t, "portable", label+"-mn")
 		}
 	}
-	switch rapid.IntRange(0, 7).Draw(t, label+"-sp") {
+	switch rapid.IntRange(0, 8).Draw(t, label+"-sp") {
+	case 8:
+		return rapid.SampledFrom([]string{"/***DVD***/", "/***PS3***/"}).Draw(t, label+"-virt") + base
 	case 0:
 		return base // no leading slash
 	case 1:
